@@ -243,6 +243,10 @@ enum Op {
     Expire,
     Restart,
     FactoryReset { matter_first: bool },
+    /// the key-value store fails the next write - armed only outside a fail-safe and only when
+    /// the next operation is a basic-information write (store failures inside a fail-safe context
+    /// are C08's subject); it is disarmed after that operation
+    KvFailNext,
 }
 
 #[derive(Debug, Clone, Serialize, Deserialize)]
@@ -405,6 +409,25 @@ fn block() -> impl Strategy<Value = Vec<Op>> {
             v.push(rewho(&then, who));
             v
         }),
+        // ... a basic-information write that meets a failing store, retried (or not), and another
+        // write of the same blob
+        2 => (admin_who(), any::<u8>(), prop_oneof![Just(0u8), Just(32u8), 1u8..32], 0u8..3, prop::bool::weighted(0.6), any::<u8>(), any::<bool>()).prop_map(
+            |(who, salt, len, kind, again, salt2, other)| {
+                let op = match kind {
+                    0 => Op::NodeLabel { who, salt, len },
+                    1 => Op::Location { who, salt },
+                    _ => Op::LocalCfg { who, value: salt & 1 == 0 },
+                };
+                let mut v = vec![Op::KvFailNext, op.clone()];
+                if again {
+                    v.push(op);
+                }
+                if other {
+                    v.push(if kind == 1 { Op::NodeLabel { who, salt: salt2, len: 7 } } else { Op::Location { who, salt: salt2 } });
+                }
+                v
+            },
+        ),
         2 => (admin_who(), 0u8..4).prop_map(|(who, target)| vec![Op::RemoveFabric { who, target }]),
         2 => (admin_who(), 500u16..900).prop_map(|(who, ms)| vec![Op::Handshake { who }, Op::Wait { ms }]),
         3 => (admin_who(), prop_oneof![1u8..4, 1u8..=24, Just(24u8)], any::<bool>(), any::<u8>()).prop_map(|(who, paths, keep, salt)| vec![Op::Subscribe { who, paths, keep, salt }]),
@@ -444,7 +467,7 @@ fn rewho(op: &Op, w: Who) -> Op {
         | Op::RemoveFabric { who, .. }
         | Op::Subscribe { who, .. }
         | Op::Handshake { who } => *who = w,
-        Op::Wait { .. } | Op::Expire | Op::Restart | Op::FactoryReset { .. } => {}
+        Op::Wait { .. } | Op::Expire | Op::Restart | Op::FactoryReset { .. } | Op::KvFailNext => {}
     }
     o
 }
@@ -478,7 +501,7 @@ fn op_who(op: &Op) -> Option<Who> {
         | Op::RemoveFabric { who, .. }
         | Op::Subscribe { who, .. }
         | Op::Handshake { who } => Some(*who),
-        Op::Wait { .. } | Op::Expire | Op::Restart | Op::FactoryReset { .. } => None,
+        Op::Wait { .. } | Op::Expire | Op::Restart | Op::FactoryReset { .. } | Op::KvFailNext => None,
     }
 }
 
@@ -649,6 +672,8 @@ struct Progress {
     stop: bool,
     /// a Restart / FactoryReset operation to be finished by the next boot: (op_no, name, begin, view before, after factory reset)
     pending: Option<(usize, String, usize, View, bool)>,
+    /// position of the operation an injected store failure is meant for
+    kv_fail_for: Option<usize>,
 }
 
 fn fail(p: &mut Progress, sig: &str, detail: String) {
@@ -855,8 +880,22 @@ fn run_segment<CC: Crypto>(
         // never sit next to the expiry instant of the fail-safe
         let near_expiry = m.armed.as_ref().map(|c| clock::now() + 5 * SEC >= c.expires_at).unwrap_or(false);
 
+        if matches!(p.kv_fail_for, Some(n) if op_no > n) {
+            b.kv.clear_fail_writes();
+            p.kv_fail_for = None;
+        }
+
         // ---- environment operations
         match &op {
+            Op::KvFailNext => {
+                let next_is_basic = matches!(case.ops.get(p.pos), Some(Op::NodeLabel { .. } | Op::Location { .. } | Op::LocalCfg { .. }));
+                if m.armed.is_none() && next_is_basic && p.kv_fail_for.is_none() {
+                    b.kv.fail_write_at(0);
+                    p.kv_fail_for = Some(p.pos);
+                    p.labels.push("store-failure-at-basic-information-write".into());
+                }
+                continue;
+            }
             Op::Wait { .. } | Op::Expire => {
                 let (before, _) = boot_view(b);
                 let begin = b.kv.log_len();
@@ -1549,7 +1588,7 @@ fn check_history(case: &HistCase) -> Case {
         subs_ever: BTreeSet::new(),
         subs_final: Vec::new(),
     };
-    let mut p = Progress { pos: 0, boot_no: 0, verdict: None, labels: Vec::new(), restart_pending: false, stop: false, pending: None };
+    let mut p = Progress { pos: 0, boot_no: 0, verdict: None, labels: Vec::new(), restart_pending: false, stop: false, pending: None, kv_fail_for: None };
 
     loop {
         let ctrls = vec![new_controller(case.seed ^ p.boot_no, 0), new_controller(case.seed ^ p.boot_no, 1), new_controller(case.seed ^ p.boot_no, 2)];
